@@ -2,7 +2,7 @@
 from collections import Counter
 
 import kinds as K
-from common import STORE_WRITES, store_effects, VERIFY, body_in
+from common import STORE_WRITES, store_effects, VERIFY, body_in, cell_entry_rule
 
 CRATES = ["ckb_chain", "ckb_store", "ckb_shared", "ckb_snapshot"]
 EXPLANATION = ("INVPAIR: attach/detach, insert/delete cells and insert/delete block write and delete the same column multisets; "
@@ -68,38 +68,8 @@ def run(F, S, R, tier):
                 R.ok(key + "/both-arms", "CELL_DATA and CELL_DATA_HASH written on both arms (so a re-created empty cell overwrites stale data)", [F.need(owner + "insert_cells").where()])
     R.guard("invpair/cells-columns", cells)
 
-    # ---- 1b. CellEntry built identically by attach and detach (restored cell == original cell)
-    def cell_entry():
-        want = {
-            "attach": {"output": [], "block_hash": [r"call:.*HeaderView::hash"], "block_number": [r"call:.*HeaderView::number"],
-                       "block_epoch": [r"call:.*HeaderView::epoch"], "index": [r"var:tx_index|upvar:tx_index"], "data_size": [r"call:.*::len$"]},
-            "detach": {"output": [], "block_hash": [r"field:.*TransactionInfo\.block_hash"], "block_number": [r"field:.*TransactionInfo\.block_number"],
-                       "block_epoch": [r"field:.*TransactionInfo\.block_epoch"], "index": [r"field:.*TransactionInfo\.index"], "data_size": [r"call:.*::len$"]},
-        }
-        for side, fn in (("attach", "ckb_store::cell::attach_block_cell"), ("detach", "ckb_store::cell::detach_block_cell")):
-            root = F.need(fn)
-            bodies = K.with_nested(root)
-            setters = {}
-            for b in bodies:
-                R.fn(b)
-                for c in b.calls:
-                    m = K.rx(r"CellEntryBuilder::(\w+)$").search(c.callee)
-                    if m and m.group(1) not in ("build", "default"):
-                        setters.setdefault(m.group(1), []).append(c)
-            R.sites += sum(len(v) for v in setters.values())
-            for f, srcs in want[side].items():
-                key = "conv/cell-entry/%s/%s" % (side, f)
-                cs = setters.get(f, [])
-                if not cs:
-                    R.bad(key, "%s builds CellEntry without setting `%s`" % (fn, f), [root.where()])
-                    continue
-                c = cs[0]
-                have = c.body.operand_sources(c.args[1]) if len(c.args) > 1 else set()
-                if srcs and not K.src_match(have, srcs):
-                    R.bad(key, "%s: CellEntry.%s is not derived from %s (%s)" % (fn, f, srcs, c.where()), [c.where()])
-                else:
-                    R.ok(key, "%s: CellEntry.%s derives from %s" % (K.short(fn), f, srcs or "the output"), [c.where()])
-    R.guard("conv/cell-entry", cell_entry)
+    # ---- 1b. CellEntry built identically by attach and detach (shared with C04)
+    R.guard("conv/cell-entry", lambda: cell_entry_rule(F, S, R))
 
     # ---- 2. attach triple / rollback pair
     R.guard("mustcall/attach-triple", lambda: K.follows(
